@@ -263,3 +263,24 @@ def fact_map(cs, dec):
     return d
 
 
+
+
+class OneSided(Exception):
+    """some of the outputs that should be compared parse, others do not: that is a difference, not a discard"""
+
+
+def read_all(texts, inst_prop):
+    docs, errs = [], []
+    for t in texts:
+        try:
+            docs.append(read_canon(t, inst_prop))
+            errs.append(None)
+        except shexc.ShExCError as e:
+            docs.append(None)
+            errs.append(str(e))
+    if all(errs):
+        raise shexc.ShExCError(errs[0])
+    if any(errs):
+        i = [k for k, e in enumerate(errs) if e][0]
+        raise OneSided("output %d of %d does not parse as ShExC (%s) while the others do:\n%s" % (i + 1, len(texts), errs[i], texts[i][:1500]))
+    return docs
